@@ -393,7 +393,7 @@ theorem loop2XF_some (rels : List RelID) (vs : List (Comp × Val)) (bts : List B
         moveStepX]⟩) bts s w
 
 /-- **`exchangeBatch` with relations once the lookup loop has passed** (no observers; with or
-    without callback): `Lock`, the move loop (a pure function), `Unlock` -/
+    without callback): `registerTargets`, `Lock`, the move loop (a pure function), `Unlock` -/
 theorem exchangeBatch_rel_after_find (run : ProbeRunner) (fo : FilterObj) (extra : List RelID)
     (add rem : List Comp) (rels : List RelID) (vals : Option (List (Comp × Val))) (w : World)
     (hl : w.isLocked = false) (hne : (add.isEmpty && rem.isEmpty) = false) {ts : List Nat}
@@ -403,24 +403,26 @@ theorem exchangeBatch_rel_after_find (run : ProbeRunner) (fo : FilterObj) (extra
     {l' : Lock} {b : Nat} (hlk : w1.locks.lock = some (l', b))
     (hno : ∀ (evt : Nat), w1.obs.hasObservers evt = false) :
     exchangeBatch run fo extra add rem rels vals w =
-      unlock b (bts.foldl (moveStepXF rels vals) { w1 with locks := l' }) := by
+      unlock b (bts.foldl (moveStepXF rels vals) { registerW w1 rels with locks := l' }) := by
   cases vals with
   | none => exact exchangeBatch_rel_eq_planFirst run fo extra add rem rels w hl hne hts hfind hlk hno
   | some vs =>
-    have hno1 : ∀ (evt : Nat), ({ w1 with locks := l' } : World).obs.hasObservers evt = false := hno
+    have hlk' : (registerW w1 rels).locks.lock = some (l', b) := hlk
+    have hno1 : ∀ (evt : Nat),
+        ({ registerW w1 rels with locks := l' } : World).obs.hasObservers evt = false := hno
     have hno2 : ∀ (evt : Nat),
-        (bts.foldl (moveStepXF rels (some vs)) { w1 with locks := l' }).obs.hasObservers evt
+        (bts.foldl (moveStepXF rels (some vs)) { registerW w1 rels with locks := l' }).obs.hasObservers evt
           = false := by
       intro evt; rw [foldl_moveStepXF_obs]; exact hno evt
-    obtain ⟨s2, h2⟩ := loop2XF_some rels vs bts [] { w1 with locks := l' }
+    obtain ⟨s2, h2⟩ := loop2XF_some rels vs bts [] { registerW w1 rels with locks := l' }
     cases hr : rem.isEmpty <;> cases ha : add.isEmpty <;> rw [hr, ha] at hne <;>
     first
     | exact absurd hne (by decide)
     | (unfold exchangeBatch
        simp only [M.bind_apply, checkLocked_unlocked w hl, M.assert_apply, hr, ha, Bool.and_self,
         Bool.and_false, Bool.false_and, Bool.not_false, Bool.not_true, if_true, hts,
-        forIn_findLoopX, hfind, lock_ok hlk, M.get_apply, hno1, Bool.false_eq_true, if_false, h2,
-        Bool.and_false, hno2])
+        forIn_findLoopX, hfind, registerTargets_eq, lock_ok hlk', M.get_apply, hno1,
+        Bool.false_eq_true, if_false, h2, Bool.and_false, hno2])
 
 end World
 
